@@ -305,7 +305,7 @@ impl<'a> Visitor for ObsVisitor<'a> {
         let op = cx.op().clone();
         let after = cx.sys.m.clone();
         let mut viol = check_result(&op, cx.out, cx.before, &after);
-        if viol.is_none() && cx.out.is_ok() {
+        if viol.is_none() && (cx.out.is_ok() || (matches!(op, Op::RClear(..)) && matches!(cx.out, Out::Err(_)))) {
             let (d, ofp) = observe_and_diff(cx, self.with_contig, self.big);
             viol = d;
             self.outcomes.insert(ofp);
